@@ -146,6 +146,21 @@ func MutateMemo(tpl MemoTemplate) []MemoMut {
 			add(st, "dup-key-null-before", jm.InsertKey(root, parentPath, st.Key, jm.N(jm.Null), true))
 			add(st, "dup-key-same", jm.InsertKey(root, parentPath, st.Key, orig.Clone(), false))
 		}
+		if st.Kind == jm.Obj && st.Key == "attributes" {
+			// the whole attributes object replaced by a WELL-FORMED object of another type: only a
+			// type registered for that interface (forwarding / action attributes) may be accepted
+			inAction := strings.Contains(st.Name, "pre_actions")
+			for name, obj := range wellFormedAttrs() {
+				m := MemoMut{Template: tpl.Name, Site: st.Name, Kind: "attrs=" + name, Memo: jm.Replace(root, st.Path, jm.RawText(obj)).String(), Denom: tpl.Denom}
+				switch {
+				case inAction && name != "fee":
+					m.Malformed = true
+				case !inAction && (name == "fee" || name == "msgsend" || name == "payload"):
+					m.Malformed = true
+				}
+				out = append(out, m)
+			}
+		}
 		switch st.Kind {
 		case jm.Obj:
 			add(st, "unknown-key", jm.InsertKey(root, st.Path, "zz_unknown", jm.Number("1"), false))
@@ -227,5 +242,91 @@ func sortedKeysS(m map[string]string) []string {
 		out = append(out, k)
 	}
 	sortStrings(out)
+	return out
+}
+
+// wellFormedAttrs are complete, well-formed attribute objects of every type the codec knows.
+func wellFormedAttrs() map[string]string {
+	return map[string]string{
+		"fee":      `{"@type":"` + spec.TypeFee + `","fees_info":[]}`,
+		"cctp":     `{"@type":"` + spec.TypeCCTP + `","destination_domain":0,"mint_recipient":"AAAAAAAAAAAAAAAAAAAAAAAAAAAAAAAAAAAAAAAAAAk=","destination_caller":""}`,
+		"internal": `{"@type":"` + spec.TypeInternal + `","recipient":"noble1fzc80nmfyks7veg76p436gfcz7qrjju9ynpx72"}`,
+		"msgsend":  `{"@type":"/cosmos.bank.v1beta1.MsgSend","from_address":"noble1fzc80nmfyks7veg76p436gfcz7qrjju9ynpx72","to_address":"noble1fzc80nmfyks7veg76p436gfcz7qrjju9ynpx72","amount":[]}`,
+		"payload":  `{"@type":"/noble.orbiter.core.v1.Payload","pre_actions":[]}`,
+	}
+}
+
+// MultiDefectMemos are payloads with two or more independent defects (each of a different error
+// class), so that WHICH error is reported depends on the order in which the code looks.
+func MultiDefectMemos(l *Lab) []string {
+	w := l.W
+	fee := `{"@type":"` + spec.TypeFee + `","fees_info":[{"recipient":"` + w.K("fee1").String() + `","basis_points":{"value":10}}]}`
+	fwd := `"forwarding":{"protocol_id":"PROTOCOL_INTERNAL","attributes":{"@type":"` + spec.TypeInternal + `","recipient":"` + w.K("rcpt1").String() + `"}}`
+	acts := []string{
+		`{"id":"ACTION_FEE"}`,                          // attributes missing
+		`{"attributes":` + fee + `}`,                   // id missing (unsupported)
+		`{"id":"ACTION_SWAP","attributes":null}`,       // attributes null
+		`{"id":2}`,                                     // swap, attributes missing
+		`{"id":0,"attributes":` + fee + `}`,            // unsupported id
+		`{"id":"ACTION_FEE","attributes":` + fee + `}`, // valid
+	}
+	var out []string
+	for i, a := range acts {
+		for j, b := range acts {
+			if i == j {
+				continue
+			}
+			out = append(out, `{"orbiter":{"pre_actions":[`+a+`,`+b+`],`+fwd+`}}`)
+			// and with a defective forwarding on top
+			out = append(out, `{"orbiter":{"pre_actions":[`+a+`,`+b+`],"forwarding":{"protocol_id":"PROTOCOL_INTERNAL"}}}`)
+		}
+	}
+	// several unknown fields at once, at several levels
+	out = append(out,
+		`{"orbiter":{"zz1":1,"zz2":2,"zz3":3,`+fwd+`}}`,
+		`{"orbiter":{"forwarding":{"protocol_id":"PROTOCOL_INTERNAL","aa":1,"bb":2,"cc":3,"attributes":{"@type":"`+spec.TypeInternal+`","recipient":"x","q1":1,"q2":2}}}}`,
+		`{"orbiter":{"forwarding":{"protocol_id":"PROTOCOL_CCTP","attributes":{"@type":"`+spec.TypeHyp+`","destination_domain":0,"mint_recipient":"AA==","destination_caller":"AA==","zz":1}}}}`,
+	)
+	return out
+}
+
+// DoubleMutations applies a second single-point mutation to a sample of single-point mutants.
+func DoubleMutations(tpl MemoTemplate, pick func(n int) int, n int) []MemoMut {
+	first := MutateMemo(tpl)
+	var out []MemoMut
+	for k := 0; k < n; k++ {
+		m1 := first[pick(len(first))]
+		if len(m1.Memo) > 3000 {
+			continue
+		}
+		root, err := jm.Parse(m1.Memo)
+		if err != nil || root.Kind != jm.Obj {
+			continue
+		}
+		sites := jm.Sites(root)
+		if len(sites) < 2 {
+			continue
+		}
+		st := sites[1+pick(len(sites)-1)]
+		var doc *jm.Node
+		kind := ""
+		switch pick(5) {
+		case 0:
+			doc, kind = jm.Delete(root, st.Path), "delete"
+		case 1:
+			doc, kind = jm.Replace(root, st.Path, jm.N(jm.Null)), "null"
+		case 2:
+			doc, kind = jm.Replace(root, st.Path, jm.Number("0")), "num0"
+		case 3:
+			doc, kind = jm.Replace(root, st.Path, jm.S("x")), "str"
+		default:
+			if st.Kind == jm.Obj {
+				doc, kind = jm.InsertKey(root, st.Path, "yy_unknown", jm.Number("2"), true), "unknown-key"
+			} else {
+				doc, kind = jm.Replace(root, st.Path, jm.Object()), "obj-empty"
+			}
+		}
+		out = append(out, MemoMut{Template: tpl.Name, Site: m1.Site + "&" + st.Name, Kind: m1.Kind + "&" + kind, Memo: doc.String(), Denom: tpl.Denom})
+	}
 	return out
 }
